@@ -1,10 +1,11 @@
 import TantivyModel.Proofs.GC
 import TantivyModel.Proofs.Storage
+import TantivyModel.Proofs.CommitProtocol
 /-!
 # C10 — Garbage collection never removes a needed file and leaves no orphan
 -/
 namespace TantivyModel.C10
-open TantivyModel.Storage TantivyModel.GC
+open TantivyModel.Storage TantivyModel.GC TantivyModel.CommitProtocol
 
 /-- **GC is safe under every interleaving**: for every state in which no GC is in flight (or one
 that satisfies the in-flight invariant) and every sequence of events of the other threads that
@@ -541,5 +542,96 @@ example : relPathM ⟨3, 9, false⟩ 7 ∈ listFilesM ⟨3, 9, false⟩ :=
   C10_segment_open_write_is_listed _ 7 (by decide) (by decide)
 example : relPathM ⟨3, 9, false⟩ Gen.TEMPSTORE_INDEX ∉ listFilesM ⟨3, 9, false⟩ := by decide
 example : Gen.SEGMENT_OPEN_WRITE_SITES.length = 9 := by decide
+
+/-- the image of finding S2 is a crash image in the sense of the fault model -/
+theorem C10_managed_rename_counterexample_is_crash_image :
+    CrashImage (Dir.empty.run s2Trace)
+      (LImage.toImage { files := [(2, some (5, false))],
+                        atoms := [(META, some ⟨0, 1, 90, []⟩), (MANAGED, some ⟨0, 0, 14, [0]⟩)] }) :=
+  crashImages_sound _ (cover_empty.run _) _ C10_managed_rename_counterexample.1
+
+/-- **a collection spares what the newest meta.json references** (link between the GC model and
+the commit protocol): whatever `fullGC` deletes (with any failing deletes) is not living; so if
+the files of the committed metas are living — the segment manager holds those metas — no deleted
+path is `meta.json` or referenced by that meta: the side condition `WOk (.gc …)` / `hdels` of the
+C01 writer events is a consequence of the GC model, not an extra assumption. -/
+theorem C10_collection_spares_committed (g : St) (fails : List Path) (refs : List Path)
+    (hlive : ∀ p ∈ refs, p ∈ living g) :
+    ∀ p ∈ (fullGC g fails).deleted, p ≠ META ∧ p ∉ refs := by
+  intro p hp
+  have hnl := ((mem_fullGC_deleted g fails p).mp hp).2.1
+  refine ⟨?_, fun hr => hnl (hlive p hr)⟩
+  intro e
+  apply hnl
+  simp [living, e]
+
+/-- the collection event of the writer model whose deletes are what the GC model selects -/
+theorem C10_gc_event_ok (s : PState) (g : St) (fails : List Path) (mg : Payload)
+    (hlive : ∀ m, metaCands s = [m] → ∀ p ∈ m.refs, p ∈ living g) :
+    WOk s (.gc mg (fullGC g fails).deleted) := by
+  intro m hm
+  exact C10_collection_spares_committed g fails m.refs (hlive m hm)
+
+example : ∀ p ∈ (fullGC demo []).deleted, p ≠ META ∧ p ∉ [10, 11] :=
+  C10_collection_spares_committed demo [] [10, 11] (by decide)
+
+/-- `ManagedDirectory::atomic_write(meta.json)` in the EXTRACTED order (register, then write)
+satisfies R4 whenever the new managed list contains `meta.json` -/
+theorem C10_atomic_write_registers_first (s : Dir) (mg b : Payload) (hm : META ∈ mg.refs) :
+    MetaRegDisc s (managedAtomicWriteOps Gen.MANAGED_ATOMIC_WRITE_STEPS mg META b) := by
+  have ho : Gen.MANAGED_ATOMIC_WRITE_STEPS = [1, 2] := by decide
+  rw [ho]
+  have hMM : MANAGED ≠ META := by decide
+  refine ⟨⟨fun e => absurd e hMM, fun _ _ => hm⟩, ⟨fun _ => ?_, fun e => absurd e.symm hMM⟩, trivial⟩
+  simp [visibleManaged, Dir.step, AtomSt.visible, hm]
+
+/-- **`hmeta` derived**: along every trace from the empty directory that respects R4, in every
+crash image whose `.managed.json` is the newest one and which contains a `meta.json`, that
+`.managed.json` exists and lists `meta.json` — the last hypothesis of
+`C10_after_crash_registered` that was assumed. -/
+theorem C10_meta_json_is_managed (t : List Op) (hd : MetaRegDisc Dir.empty t) (k : Nat) (img : Image)
+    (hi : CrashImage (Dir.empty.run (t.take k)) img)
+    (hm : img.atom MANAGED = ((Dir.empty.run (t.take k)).atom MANAGED).visible)
+    (hx : img.atom META ≠ none) : ∃ b, img.atom MANAGED = some b ∧ META ∈ b.refs := by
+  have h0 : MInv Dir.empty := by
+    intro h; simp [Dir.empty] at h
+  have hinv := h0.run _ (metaRegDisc_take _ t k hd)
+  have hopt := hi.2 META
+  have hex : ((Dir.empty.run (t.take k)).atom META).dur ≠ none ∨ ((Dir.empty.run (t.take k)).atom META).pend ≠ [] := by
+    unfold AtomSt.options at hopt
+    rcases List.mem_cons.mp hopt with e | e
+    · left; rw [← e]; exact hx
+    · right
+      intro hp
+      rw [hp] at e
+      simp at e
+  have hin := hinv hex
+  unfold visibleManaged at hin
+  rw [← hm] at hin
+  cases hb : img.atom MANAGED with
+  | none => simp [hb] at hin
+  | some b => exact ⟨b, rfl, by simpa [hb] using hin⟩
+
+example : MetaRegDisc Dir.empty
+    [.atomicWrite MANAGED ⟨0, 0, 14, [0]⟩, .syncDir, .atomicWrite META ⟨0, 1, 90, []⟩, .syncDir,
+     .atomicWrite MANAGED ⟨0, 2, 30, [0, 2]⟩, .create 2] := by
+  simp [MetaRegDisc, MetaRegOK, Dir.step, Dir.empty, visibleManaged, AtomSt.visible, AtomSt.sync, upd, MANAGED, META]
+
+example : ¬ MetaRegDisc Dir.empty (managedAtomicWriteOps [2, 1] ⟨0, 0, 14, [0]⟩ META ⟨0, 1, 90, []⟩) := by
+  simp [managedAtomicWriteOps, MetaRegDisc, MetaRegOK, Dir.empty, visibleManaged, AtomSt.visible, META]
+
+
+/-- **after a crash, no hypothesis left but the disciplines**: for every trace from the empty
+directory that respects R1–R4 (all decided on the real log, and derived for
+`ManagedDirectory::open_write` / `atomic_write` from their extracted step order), every prefix and
+every crash image that still has a `meta.json` and whose `.managed.json` is the newest one,
+recovery followed by one complete collection leaves no orphan. -/
+theorem C10_after_crash_no_orphans (t : List Op) (hd : RegDisc Dir.empty t) (hd4 : MetaRegDisc Dir.empty t)
+    (k : Nat) (img : LImage) (hn : (img.files.map Prod.fst).Nodup)
+    (hi : CrashImage (Dir.empty.run (t.take k)) img.toImage)
+    (hm : lookupD img.atoms MANAGED = ((Dir.empty.run (t.take k)).atom MANAGED).visible)
+    (hx : lookupD img.atoms META ≠ none) :
+    ∀ p ∈ (fullGC (ofImage img) []).dir, p ∈ living (ofImage img) :=
+  C10_after_crash_registered t hd k img hn hi hm (C10_meta_json_is_managed t hd4 k img.toImage hi hm hx)
 
 end TantivyModel.C10
